@@ -249,11 +249,14 @@ Proof.
     inversion V; subst. assert (N.eqb c1 92 = false) as -> by lia. reflexivity.
   - (* escape *) destruct (N.eqb c1 92) eqn:E1; [|discriminate].
     destruct (N.eqb c2 120) eqn:E2; [discriminate|].
-    unfold char_value. change ((39%N :: [c1; c2] ++ [39%N])) with [39%N; c1; c2; 39%N]. cbv iota. rewrite E1.
+    change (char_value (39%N :: [c1; c2] ++ [39%N])) with
+      (if N.eqb c1 92 then match assoc c2 simple_escapes with Some v0 => Ok v0 | None => Err CDefError end
+       else Err CDefError).
+    rewrite E1.
     destruct (assoc c2 c_escapes) as [v1|] eqn:A.
     + inversion V; subst. rewrite (table_le_assoc _ _ escapes_covered _ _ A). auto.
     + apply octal_single in V. rewrite (table_le_assoc _ _ octal_singles_covered _ _ V). auto.
-  - right. reflexivity.
+  - right. destruct rest; reflexivity.
 Qed.
 
 Theorem literal_agree : forall s t v, c_literal s = Some (t, v) ->
